@@ -3,7 +3,7 @@
 //!   format-record <out.ndjson> <n> <maxcells>      impl -> spec: random contents, their image and re-parse
 //!   dump <file> <le|be> <out.ndjson>               project a file from disk as a format event
 //!   sm-replay / sm-record                           see below (state machine)
-use mila::{BinArchive, BinArchiveReader, BinArchiveWriter, Endian};
+use mila::{BinArchive, BinArchiveReader, BinArchiveWriter, EncodedStringReader, Endian};
 use mvh::proj::*;
 use mvh::util::*;
 use serde_json::{json, Value};
@@ -387,7 +387,7 @@ thread_local! {
 }
 
 fn is_reader_op(op: &str) -> bool {
-    matches!(op, "s_read_val" | "s_read_bytes" | "s_read_string" | "s_read_pointer" | "s_read_labels" | "s_read_c_string" | "s_read_label")
+    matches!(op, "s_read_val" | "s_read_bytes" | "s_read_string" | "s_read_pointer" | "s_read_labels" | "s_read_c_string" | "s_read_label" | "s_read_sjis" | "s_read_utf16")
 }
 
 /// One call on a live reader (the cursor is the reader's own); seek / skip included.
@@ -426,6 +426,15 @@ fn reader_call(rd: &mut BinArchiveReader, ev: &Value) -> Value {
         "s_read_labels" => opt_of(rd.read_labels().map(|o| o.map(|l| Value::Array(l.iter().map(|x| sj_json(x)).collect())))),
         "s_read_c_string" => opt_of(rd.read_c_string().map(|o| o.map(|s| cstr_json(&s)))),
         "s_read_label" => opt_of(rd.read_label(n).map(|o| o.map(|s| sj_json(&s)))),
+        // cursor string readers (trait EncodedStringReader)
+        "s_read_sjis" => match rd.read_shift_jis_string() {
+            Ok(s) => res_val(cstr_json(&s)),
+            Err(_) => res_err(),
+        },
+        "s_read_utf16" => match rd.read_utf_16_string() {
+            Ok(s) => res_val(Value::Array(s.encode_utf16().map(|u| json!(u)).collect())),
+            Err(_) => res_err(),
+        },
         other => usage(&format!("unknown reader op {}", other)),
     }
 }
@@ -757,7 +766,7 @@ fn random_session(rng: &mut Rng, p: &Value, focus: &str) -> Value {
                 6 => ev("s_read_string", 0, 0, false, json!([]), 0, ""),
                 7 => ev("s_read_pointer", 0, 0, false, json!([]), 0, ""),
                 8 => ev("s_read_labels", 0, 0, false, json!([]), 0, ""),
-                _ => ev("s_read_c_string", 0, 0, false, json!([]), 0, ""),
+                _ => ev(["s_read_c_string", "s_read_sjis", "s_read_utf16"][rng.below(3)], 0, 0, false, json!([]), 0, ""),
             });
         } else if r < 40 && focus == "c03" && sz <= 200 {
             let n = [0i64, 3, 4, 8][rng.below(4)];
@@ -893,7 +902,14 @@ fn random_event(rng: &mut Rng, p: &Value, focus: &str) -> Value {
             40..=51 => ev(&pre("read_bytes"), baddr(rng), match rng.below(8) { 0 => 0, 1 => MAXU - rng.below(3) as i64, 2 => size + 1, _ => rng.below(size as usize + 2) as i64 }, false, json!([]), 0, ""),
             52..=63 => {
                 let k = match rng.below(6) { 0 => 0, 1 => size as usize + 1, _ => rng.below(size as usize + 1) };
-                ev(&pre("write_bytes"), baddr(rng), 0, false, bytes_to_json(&rng.bytes(k)), 0, "")
+                // now and then text-like content: small code units with NULs in between (the cursor string readers find terminators)
+                let mut b = rng.bytes(k);
+                if rng.chance(1, 2) {
+                    for x in b.iter_mut() {
+                        *x = if *x % 3 == 0 { 0 } else { 0x41 + *x % 8 };
+                    }
+                }
+                ev(&pre("write_bytes"), baddr(rng), 0, false, bytes_to_json(&b), 0, "")
             }
             64..=66 => ev(&pre("read_string"), addr(rng), 0, false, json!([]), 0, ""),
             67..=69 => ev(&pre("read_c_string"), addr(rng), 0, false, json!([]), 0, ""),
@@ -910,7 +926,11 @@ fn random_event(rng: &mut Rng, p: &Value, focus: &str) -> Value {
             90..=93 => ev(&pre("write_label"), addr(rng), 0, false, name(rng), 0, ""),
             94..=95 => ev(&pre("delete_string"), addr(rng), 0, false, json!([]), 0, ""),
             96 => ev("delete_label", addr(rng), rng.below(3) as i64, false, json!([]), 0, ""),
-            97 => ev("s_read_label", addr(rng), rng.below(3) as i64, false, json!([]), 0, ""),
+            97 => match rng.below(3) {
+                0 => ev("s_read_label", addr(rng), rng.below(3) as i64, false, json!([]), 0, ""),
+                1 => ev("s_read_sjis", baddr(rng), 0, false, json!([]), 0, ""),
+                _ => ev("s_read_utf16", baddr(rng), 0, false, json!([]), 0, ""),
+            },
             98 => match rng.below(3) {
                 0 => ev("get_labels", 0, 0, false, json!([]), 0, ""),
                 1 => ev("pointer_destinations", 0, 0, false, json!([]), 0, ""),
@@ -921,36 +941,61 @@ fn random_event(rng: &mut Rng, p: &Value, focus: &str) -> Value {
     }
 }
 
+fn sm_initial(rng: &mut Rng, focus: &str, maxcells: usize) -> (BinArchive, String) {
+    let mut content = random_content(rng, maxcells, focus == "c03");
+    if focus == "c03" {
+        // structural operations are about cell-aligned archives
+        let n = content["data"].as_array().unwrap().len() / 4 * 4;
+        content["data"].as_array_mut().unwrap().truncate(n);
+        let lab: Vec<Value> = content["labels"].as_array().unwrap().iter().filter(|l| l[0].as_u64().unwrap() as usize <= n).cloned().collect();
+        content["labels"] = Value::Array(lab);
+        for p in content["ptrs"].as_array_mut().unwrap() {
+            if p[1].as_u64().unwrap() as usize > n {
+                p[1] = json!(n);
+            }
+        }
+    }
+    let e = content["endian"].as_str().unwrap().to_string();
+    match build(&content) {
+        Ok(a) => (a, e),
+        Err(why) => {
+            eprintln!("record: cannot build initial archive: {}", why);
+            std::process::exit(2)
+        }
+    }
+}
+
+/// Random histories.  Every third run drives TWO archives alive at the same time (calls interleaved at random,
+/// events carry "obj"): nothing done to one archive may show in the other.
 fn sm_record(out_path: &str, focus: &str, runs: usize, len: usize) {
     let mut rng = Rng::new(seed_from_env() ^ 0x5EED);
     let mut out = NdWriter::create(out_path);
     for run in 0..runs {
         let maxcells = if focus == "c04" { 1 + run % 6 } else { 1 + run % 16 };
-        let mut content = random_content(&mut rng, maxcells, focus == "c03");
-        if focus == "c03" {
-            // structural operations are about cell-aligned archives
-            let n = content["data"].as_array().unwrap().len() / 4 * 4;
-            content["data"].as_array_mut().unwrap().truncate(n);
-            let lab: Vec<Value> = content["labels"].as_array().unwrap().iter().filter(|l| l[0].as_u64().unwrap() as usize <= n).cloned().collect();
-            content["labels"] = Value::Array(lab);
-            for p in content["ptrs"].as_array_mut().unwrap() {
-                if p[1].as_u64().unwrap() as usize > n {
-                    p[1] = json!(n);
-                }
-            }
-        }
-        let e = content["endian"].as_str().unwrap().to_string();
-        let mut a = match build(&content) {
-            Ok(a) => a,
-            Err(why) => {
-                eprintln!("record: cannot build initial archive: {}", why);
-                std::process::exit(2)
+        let twin = run % 3 == 1;
+        let nobj = if twin { 2 } else { 1 };
+        let mut objs: Vec<(BinArchive, String)> = (0..nobj).map(|_| sm_initial(&mut rng, focus, maxcells)).collect();
+        let tag = |v: &mut Value, o: usize| {
+            if twin {
+                v["obj"] = json!(o);
             }
         };
-        let reset = |a: &BinArchive| json!({"op": "reset", "a": 0, "n": 0, "ge": false, "bs": [], "t": 0, "ty": "", "res": res_unit(), "pos": 0, "post": sm_project(a, &e)});
-        out.put(&reset(&a));
+        let reset = |a: &BinArchive, e: &str, o: usize| {
+            let mut r = json!({"op": "reset", "a": 0, "n": 0, "ge": false, "bs": [], "t": 0, "ty": "", "res": res_unit(), "pos": 0, "post": sm_project(a, e)});
+            if twin {
+                r["obj"] = json!(o);
+            }
+            r
+        };
+        for o in 0..nobj {
+            out.put(&reset(&objs[o].0, &objs[o].1, o));
+        }
         for step in 0..len {
-            let p = sm_project(&a, &e);
+            let o = if twin { rng.below(2) } else { 0 };
+            let e = objs[o].1.clone();
+            CUR_ENDIAN.with(|c| *c.borrow_mut() = e == "be");
+            let a = &mut objs[o].0;
+            let p = sm_project(a, &e);
             // now and then (and at the end of every run): serialize the archive as the history left it
             if step + 1 == len || rng.chance(1, 40) {
                 let mut sv = ev("serialize", 0, 0, false, json!([]), 0, "");
@@ -960,23 +1005,25 @@ fn sm_record(out_path: &str, focus: &str, runs: usize, len: usize) {
                     Err(pn) => json!({"panic": pn}),
                 };
                 sv["pos"] = json!(0);
-                sv["post"] = sm_project(&a, &e);
+                sv["post"] = sm_project(a, &e);
+                tag(&mut sv, o);
                 out.put(&sv);
             }
             let mut evv = random_event(&mut rng, &p, focus);
-            match catch(|| sm_apply(&mut a, &evv)) {
+            tag(&mut evv, o);
+            match catch(|| sm_apply(a, &evv)) {
                 Ok((res, pos)) => {
                     evv["res"] = res;
                     evv["pos"] = json!(pos);
-                    evv["post"] = sm_project(&a, &e);
+                    evv["post"] = sm_project(a, &e);
                     out.put(&evv);
                 }
                 Err(pn) => {
                     evv["res"] = json!({"panic": pn});
                     evv["pos"] = json!(0);
-                    evv["post"] = sm_project(&a, &e);
+                    evv["post"] = sm_project(a, &e);
                     out.put(&evv);
-                    out.put(&reset(&a));
+                    out.put(&reset(a, &e, o));
                 }
             }
         }
